@@ -128,24 +128,33 @@ def run(ctx):
                 bad = ("readslices-mock-count", "ReadSlices mock: %d expectations, %d calls: final `%s`" % (len(w), n, io[-1]))
         elif kind == "sub" and not any(c[1] == "none" for c in m[2]):
             w, seq = m[1], m[2]
-            idx, fails = 0, 0
+            idx, fails, seen = 0, 0, 0
             for (q, fs), line in zip(seq, io):
+                deviates = False
                 if q == "closed":
                     want_ret = "canceled"
                 else:
                     if idx >= len(w):
                         fails += 1
+                        deviates = True
                         want_ret = "nil"
                     else:
                         exp = set() if w[idx][0] == "none" else set(w[idx][0].split(","))
                         if set(fs.split(",")) != exp:
                             fails += 1
+                            deviates = True
                         want_ret = w[idx][1]
                     idx += 1
-                if line.split()[1:2] != [want_ret] or (line.endswith("fails=0") != (fails == 0)):
-                    bad = ("subscribe-mock", "subscribe mock: call with filters %s (quit %s) against %s gave `%s`, want return %s and %s"
-                           % (fs, q, w[idx - 1] if 0 < idx <= len(w) else "nothing", line, want_ret, "no failure" if fails == 0 else "a failure"))
+                try:
+                    now = int(line.rsplit("fails=", 1)[1])
+                except (IndexError, ValueError):
+                    now = -1
+                # each invocation is judged on its own: a matching one adds no failure, a deviating one at least one
+                if line.split()[1:2] != [want_ret] or now < 0 or (now - seen > 0) != deviates:
+                    bad = ("subscribe-mock", "subscribe mock: call with filters %s (quit %s) against %s gave `%s` (%d failures before it), want return %s and %s"
+                           % (fs, q, w[idx - 1] if 0 < idx <= len(w) else "nothing", line, seen, want_ret, "a new failure" if deviates else "no new failure"))
                     break
+                seen = now
             if not bad:
                 want_fail = fails > 0 or idx != len(w)
                 got_fail = not io[-1].endswith("fails=0")
